@@ -58,7 +58,7 @@ m = {
     }],
     "checks": checks,
     "not_applicable": napp,
-    "notes": "exit 0 = every assertion unsat within the stated bounds and all reachability witnesses hit; exit 1 = replayed counterexample (VIOLATION line); exit 2 = inconclusive (never registered). See DESIGN.md.",
+    "notes": "quick: exit 0 = every assertion unsat on every path of the stated bound (exhaustive) and all reachability witnesses hit. thorough: a larger bound explored under a 120 s per-harness budget; when the budget ends first a line 'PARTIAL property=<id> ...' says how many paths were explored and the exit code 0 speaks for those paths only (evidence exhaustive=false). exit 1 = counterexample replayed natively against /repo (VIOLATION line). exit 2 = inconclusive (solver unknown, unsupported instruction, unreached witness, unreproduced model): never reported as OK or VIOLATION. KNOWN-FINDING lines: see known_findings.json and DESIGN.md section 10.5. DESIGN.md section 10 is the as-built record.",
 }
 json.dump(m, open(os.path.join(root, "MANIFEST.json"), "w"), indent=1)
 print("claimed:", " ".join(c["property_id"] for c in checks))
